@@ -437,6 +437,36 @@ pub fn g_deep(cfg: ValueCfg, depth: usize) -> BS<MV> {
         .boxed()
 }
 
+/// Wide values: a list or vector of 100..=`max` elements that repeat a few
+/// small units (dotted pairs, improper lists, vectors, byte vectors, nested
+/// lists, strings, plain atoms). A reader or printer that keeps a running
+/// budget or counter and fails to give it back after some construct is fine on
+/// small inputs and breaks on the hundredth repetition.
+pub fn g_wide(cfg: ValueCfg, max: usize) -> BS<MV> {
+    let small = ValueCfg { depth: 2, nodes: 6, branch: 3, str_max: 6, ..cfg };
+    let unit = prop_oneof![
+        3 => (g_atom(small), g_atom(small)).prop_map(|(a, b)| MV::List(vec![a], Box::new(non_null(b))).normalize()),
+        2 => (vec(g_atom(small), 1..4), g_atom(small)).prop_map(|(xs, t)| MV::List(xs, Box::new(non_null(t))).normalize()),
+        2 => vec(g_atom(small), 0..3).prop_map(MV::Vec),
+        2 => vec(g_atom(small), 0..3).prop_map(MV::list),
+        2 => g_value(small),
+        2 => g_atom(small),
+        1 => g_deep(small, 4),
+    ];
+    (vec(unit, 1..4), 100usize..=max.max(100), 0u8..8, g_atom(small))
+        .prop_map(|(units, k, form, tail)| {
+            let items: Vec<MV> = (0..k).map(|i| units[i % units.len()].clone()).collect();
+            match form {
+                0 | 1 => MV::Vec(items),
+                2 => MV::List(items, Box::new(non_null(tail))).normalize(),
+                // an association list under a head symbol
+                3 => MV::list(std::iter::once(MV::sym("alist")).chain(items).collect()),
+                _ => MV::list(items),
+            }
+        })
+        .boxed()
+}
+
 // --------------------------------------------------------------------------
 // trivia
 
